@@ -2214,7 +2214,7 @@ static ec_point_tst2v_t ec_curve_tst2v[] = {
 	/* From: gostR3410-2001 */
 	{
 		/*.curve_name =*/	"id-gostR3410-2001-Test_ParamSet",
-		/*.curve_name_size =*/	30,
+		/*.curve_name_size =*/	31,
 		/*.hex_str_len =*/	64,
 		/*.hash =*/		"2dfbc1b372d89a1188c09c52e0eec61fce52032ab1022e8e67ece6672b043ee5",
 		/*.hash_str_len=*/	64,
